@@ -145,6 +145,13 @@ pub fn comp_string(r: &mut Rng, no_slash: bool) -> String {
                 continue;
             }
         }
+        if r.chance(1, 30) {
+            let l = crate::gen::dict_token(r);
+            if !(no_slash && l.contains('/')) {
+                s.push_str(l);
+                continue;
+            }
+        }
         let mut c = comp_char(r, hostility);
         if no_slash && c == '/' {
             c = *r.pick(&['a', '\\', '%', '.']);
@@ -248,11 +255,43 @@ pub const ALG_VOCABULARY: &[&str] = &[
     "blake2b-256", "1", "", "a", "a0", "a:", "ασ", "οδοσ", "σ", "ασα",
     // distinct names that coincide once upper-cased (a case-insensitive sort would tie them)
     "ſha1", "gross", "groß", "ǆ", "ᾳ", "αι",
+    // code-point order and UTF-16 code-unit order disagree on these (BMP above the surrogates
+    // against supplementary planes)
+    "\u{ff76}", "\u{1f600}", "\u{e000}", "\u{10000}", "\u{ffff}", "\u{10ffff}", "a\u{fb01}", "a\u{1d7d8}",
 ];
+
+/// A lower-case algorithm name whose UTF-8 length sits at a power of two (15..=18, 31..=34,
+/// 63..=66, 127..=130, 255..=258 bytes) and which contains letters whose other-case spelling
+/// has a different UTF-8 length (`ⱥ` 3 bytes / `Ⱥ` 2, `k` 1 / Kelvin sign 3, `ω` 2 / Ohm sign
+/// 3, `å` 2 / Angstrom sign 3): a length limit or a buffer sized before lower-casing shows.
+pub fn edge_len_alg(r: &mut Rng) -> String {
+    let target = *r.pick(&[16usize, 32, 64, 128, 256]) + r.below(4) - 1;
+    let mut s = String::new();
+    let specials = ['ⱥ', 'ⱦ', 'k', 'ω', 'å'];
+    let n_special = r.range(1, 3);
+    let mut at: Vec<usize> = (0..n_special).map(|_| r.below(target)).collect();
+    at.sort_unstable();
+    while s.len() < target {
+        if at.first().map_or(false, |&p| s.len() >= p) {
+            at.remove(0);
+            let c = *r.pick(&specials);
+            if s.len() + c.len_utf8() <= target {
+                s.push(c);
+                continue;
+            }
+        }
+        s.push(*r.pick(b"abcdefghijlmnopqrstuvwxyz0123456789-") as char);
+    }
+    debug_assert_eq!(model::lower(&s), s);
+    s
+}
 
 pub fn gen_alg(r: &mut Rng) -> String {
     if r.chance(1, 3) {
         return r.pick(ALG_VOCABULARY).to_string();
+    }
+    if r.chance(1, 12) {
+        return edge_len_alg(r);
     }
     let n = r.range(0, 8);
     let mut s = String::new();
@@ -309,7 +348,9 @@ pub fn gen_tuple(r: &mut Rng, known: bool) -> Tuple {
         if lk == "checksum" || quals.iter().any(|(x, _)| ascii_lower(x) == lk) {
             continue;
         }
-        quals.push((k, comp_string(r, false)));
+        let voc = crate::gen::key_vocabulary(&lk);
+        let v = if r.chance(1, 3) && (voc.len() > 4 || r.chance(1, 4)) { r.pick(voc).to_string() } else { comp_string(r, false) };
+        quals.push((k, v));
     }
     let checksum = if r.chance(1, 4) { Some(gen_checksum(r, 5)) } else { None };
     let nsub = *r.pick(&[0usize, 0, 1, 2, 4]);
@@ -503,7 +544,17 @@ fn vary_alg(r: &mut Rng, a: &str, enabled: bool, used: &mut u32) -> String {
                 'δ' => 'Δ',
                 'ᾀ' => 'ᾈ',
                 'ᾳ' => 'ᾼ',
+                // other-case spellings of a different UTF-8 length
+                'ⱥ' => 'Ⱥ',
+                'ⱦ' => 'Ⱦ',
+                'å' => *r.pick(&['Å', '\u{212B}']),
                 _ => c,
+            };
+            // (ASCII k and Greek omega have a second upper-case spelling: Kelvin and Ohm signs)
+            let v = match v {
+                'K' if r.chance(1, 3) => '\u{212A}',
+                'Ω' if r.chance(1, 3) => '\u{2126}',
+                v => v,
             };
             if v != c {
                 debug_assert_eq!(model::lower(&v.to_string()), c.to_string());
@@ -734,7 +785,7 @@ pub fn inject(r: &mut Rng, t: &Tuple, sp: &Spelled, kind: &str) -> Option<String
                 return None;
             }
         },
-        "scheme-other" => s.scheme = r.pick(&["http:", "purl:", "pkgx:", "pk:", "pkg;", "pkg\u{FF1A}", "p%6Bg:"]).to_string(),
+        "scheme-other" => s.scheme = r.pick(&["http:", "purl:", "pkgx:", "pk:", "pkg;", "pkg\u{FF1A}", "p%6Bg:", "p\u{212A}g:", "P\u{212A}G:", "\u{FF50}kg:", "pk\u{261}:", "\u{FF50}\u{FF4B}\u{FF47}:", "pkg\u{2236}", "pkg\u{FE55}", "p\u{1E33}g:", "pkg\u{0}:", "pkgs:", "pkg+x:", "%70kg:"]).to_string(),
         "scheme-no-colon" => s.scheme = "pkg".into(),
         "scheme-char-before" => {
             let c = if r.coin() { ' ' } else { hostile_char(r) };
